@@ -103,3 +103,16 @@ Definition lapout_buf (c : cfg) (s : dec) (buf : Z -> sexp) : Z -> sexp :=
       let d := n1 - n0 in
       fun i => if (d <=? i) && (i <? d + n0) then buf1 (i - d) else buf1 i
     else buf1.
+
+(* _ov_splice on the exposed buffer: the first n = min(n1, n2) cells from the
+   read position are cross-faded with the saved lap samples (SSplice new old i
+   = new*w^2(i) + old*(1-w^2(i)); channels the old stream did not have fade in
+   from silence); nothing else is written *)
+Inductive cell :=
+| CKeep (e : sexp)
+| CSplice (new : sexp) (old : option sexp) (i : Z) (wn : Z).
+
+Definition splice_buf (n wn : Z) (ret : Z) (lap : option (Z -> sexp)) (buf : Z -> sexp) : Z -> cell :=
+  fun i => if (ret <=? i) && (i <? ret + n)
+           then CSplice (buf i) (match lap with Some l => Some (l (i - ret)) | None => None end) (i - ret) wn
+           else CKeep (buf i).
